@@ -73,6 +73,11 @@ def main(argv):
             return 2
     try:
         return run(prop, tier, seed, facts_in, t0)
+    except (Exception, RecursionError) as ex:      # an internal error is never a verdict
+        import traceback
+        traceback.print_exc()
+        print("CHECKER-ERROR property=%s internal error of the analysis: %r" % (prop, ex))
+        return 2
     finally:
         if tmp:
             import shutil
